@@ -146,8 +146,19 @@ def run_case(case, v, exact=True):
                        'step_index': case['steps'].index(step)}
                 rec['expect'] = clock.next_time_on_grid(pq['quant'],
                                                         pq['phase'])
-                Routine(probe_fn(rec)).play(clock, (pq['quant'], pq['phase']))
-                probes.append(rec)
+                if step.get('move') and probes and \
+                        'woke_beats' not in probes[-1]:
+                    # the pending probe is scheduled again (moved) instead
+                    # of a new one: it wakes at the new grid point only
+                    old = probes[-1]
+                    old.update(q=pq, at_beats=rec['at_beats'],
+                               step_index=rec['step_index'],
+                               expect=rec['expect'], moved=True)
+                    clock.play(old['routine'], (pq['quant'], pq['phase']))
+                else:
+                    rec['routine'] = Routine(probe_fn(rec))
+                    rec['routine'].play(clock, (pq['quant'], pq['phase']))
+                    probes.append(rec)
             obs.append(o)
             last = {'beats': o['op_after'][0] if op else o['beats'],
                     'secs': o['secs'],
@@ -269,6 +280,8 @@ def run_case(case, v, exact=True):
         labels.append('meter_change')
     if probes:
         labels.append('play_probe')
+    if any(r.get('moved') for r in probes):
+        labels.append('pending_probe_moved')
     return {'nontrivial': nontrivial, 'labels': labels}
 
 
@@ -322,6 +335,8 @@ def cases(draw, exact=True):
         if draw(st.integers(0, 2)) == 0:
             pq = query()
             step['play'] = {'quant': pq['quant'], 'phase': pq['phase']}
+            if draw(st.integers(0, 2)) == 0:
+                step['move'] = True
         steps.append(step)
     if draw(st.integers(0, 3)) == 0:
         steps.append({'wait': draw(num), 'op': ['beats', draw(num)],
